@@ -43,7 +43,8 @@ async fn server_task(config: config::Config, index: usize) {
             println!("[{servername}] <== {command}");
             let result = rink_core::eval(&mut ctx, command);
             let result = result.to_spans();
-            let result = fmt::to_irc_string(&config, &result);
+            // An IRC message ends at the first line end.
+            let result = fmt::to_irc_string(&config, &result).replace('\n', " ");
             println!("[{servername}] ==> {result}");
             let where_to = if channel == client.current_nickname() {
                 if let Some(source) = source {
